@@ -475,6 +475,58 @@ func (r *resolver) ResolveTypedefs() error {
 		tds = tmp
 		cnt = len(tds)
 	}
+	return r.checkTypedefCycles()
+}
+
+// checkTypedefCycles reports a typedef whose definition reaches itself through
+// typedefs and container element types only, like 'typedef list<A> A'. Such a
+// type has no finite expansion, and everything that expands typedefs (type
+// names in tags, Deref) would recurse forever on it. Typedefs of included
+// files were checked when those files were resolved.
+func (r *resolver) checkTypedefCycles() error {
+	const (
+		visiting = 1
+		done     = 2
+	)
+	state := make(map[*parser.Typedef]int)
+	var visitType func(t *parser.Type) error
+	visitTypedef := func(td *parser.Typedef) error {
+		switch state[td] {
+		case done:
+			return nil
+		case visiting:
+			return fmt.Errorf("typedef %q in %q is defined in terms of itself", td.Alias, r.ast.Filename)
+		}
+		state[td] = visiting
+		if err := visitType(td.Type); err != nil {
+			return err
+		}
+		state[td] = done
+		return nil
+	}
+	visitType = func(t *parser.Type) error {
+		if t == nil {
+			return nil
+		}
+		if t.KeyType != nil || t.ValueType != nil {
+			if err := visitType(t.KeyType); err != nil {
+				return err
+			}
+			return visitType(t.ValueType)
+		}
+		if t.IsSetReference() {
+			return nil // defined in an included file, which can not refer back
+		}
+		if td, ok := r.ast.GetTypedef(t.Name); ok {
+			return visitTypedef(td)
+		}
+		return nil
+	}
+	for _, td := range r.ast.Typedefs {
+		if err := visitTypedef(td); err != nil {
+			return err
+		}
+	}
 	return nil
 }
 
